@@ -5,9 +5,11 @@ pids=${@:-$(python3 -c "import json;print(json.load(open('/verif/seeded/$seed/me
 cd /repo || exit 2
 if ! git apply --check /verif/seeded/$seed/patch.diff 2>/dev/null; then echo "$seed: patch does not apply to current /repo"; exit 2; fi
 git apply /verif/seeded/$seed/patch.diff
+scratch=$(mktemp -d /tmp/pyvc_try.XXXXXX)     # evidence / replays of a mutated tree never land in /verif
 for p in $pids; do
-  out=$(cd /verif && ./check $p 2>&1); code=$?
+  out=$(cd /verif && PYVC_OUT=$scratch ./check $p 2>&1); code=$?
   echo "$seed $p exit=$code :: $(echo "$out" | grep -c '^VIOLATION') violations; $(echo "$out" | grep '^VIOLATION' | head -3 | sed 's/replay=[^ ]* //' | tr '\n' ';')"
   echo "$out" | grep -E "^(UNDECIDED|CHECKER-ERROR)" | head -3
 done
+rm -rf "$scratch"
 git checkout -- . 
